@@ -50,6 +50,20 @@ pub fn cleanup_scratch() {
     let _ = std::fs::remove_dir_all(scratch_base());
 }
 
+/// What each par_map worker is working on and since when (hang supervision).
+static RUNNING: Mutex<Vec<(std::thread::ThreadId, u64, std::time::Instant)>> = Mutex::new(Vec::new());
+
+/// A long item (a file whose every offset is damaged, a history with hundreds of crash images)
+/// calls this between its parts: it is alive.
+pub fn heartbeat() {
+    if let Ok(mut r) = RUNNING.lock() {
+        let me = std::thread::current().id();
+        if let Some(e) = r.iter_mut().find(|e| e.0 == me) {
+            e.2 = std::time::Instant::now();
+        }
+    }
+}
+
 /// Run `f(index, worker)` for index in 0..n on `threads` OS threads; results in index order.
 /// `deadline` (seconds since start) stops handing out new indices; the result covers the indices handed out (a panicking one is None).
 pub fn par_map<T: Send + 'static>(
@@ -73,6 +87,33 @@ pub fn par_map<T: Send + 'static>(
     let results: Arc<Mutex<BTreeMap<u64, T>>> = Arc::new(Mutex::new(BTreeMap::new()));
     let f = Arc::new(f);
     let start = std::time::Instant::now();
+    // Hang supervision: an index that has been running for STORESIM_HANG_S seconds (default 120;
+    // a run normally takes milliseconds) means the code under test blocked for good, e.g. an
+    // ingest waiting on a condition nobody will ever signal.  The blocked thread cannot be
+    // recovered, so the process exits with status 3 and /verif/check re-runs the marked indices
+    // one at a time to name the one that hangs.
+    let hang_s: f64 = std::env::var("STORESIM_HANG_S").ok().and_then(|s| s.parse().ok()).unwrap_or(120.0);
+    let all_done = Arc::new(std::sync::atomic::AtomicBool::new(false));
+    {
+        let all_done = Arc::clone(&all_done);
+        std::thread::spawn(move || loop {
+            std::thread::sleep(std::time::Duration::from_millis(500));
+            if all_done.load(Ordering::SeqCst) {
+                return;
+            }
+            let hung: Vec<u64> = RUNNING
+                .lock()
+                .unwrap()
+                .iter()
+                .filter(|(_, _, since)| since.elapsed().as_secs_f64() > hang_s)
+                .map(|(_, i, _)| *i)
+                .collect();
+            if !hung.is_empty() {
+                eprintln!("storesim: run index {hung:?} has not returned for {hang_s} s; the process exits with status 3");
+                std::process::exit(3);
+            }
+        });
+    }
     let mut handles = Vec::new();
     for w in 0..threads.max(1) {
         let next = Arc::clone(&next);
@@ -99,7 +140,10 @@ pub fn par_map<T: Send + 'static>(
                         // self-test of the abort supervision only
                         std::process::abort();
                     }
+                    let me = std::thread::current().id();
+                    RUNNING.lock().unwrap().push((me, i, std::time::Instant::now()));
                     let r = f(i, w);
+                    RUNNING.lock().unwrap().retain(|e| e.0 != me);
                     if let Some(m) = marker.as_ref() {
                         let _ = std::fs::remove_file(m);
                     }
@@ -111,6 +155,7 @@ pub fn par_map<T: Send + 'static>(
     for h in handles {
         let _ = h.join();
     }
+    all_done.store(true, Ordering::SeqCst);
     let mut map = std::mem::take(&mut *results.lock().unwrap());
     // only the indices that were handed out: `n` may be a "no limit" count bounded by the budget
     let handed_out = next.load(Ordering::SeqCst).min(n);
